@@ -19,11 +19,13 @@ QInstants == Grid(-86400 - 3600, 2 * 86400 + 3600, 3600) \cup {-1, 0, 1, 7199, 7
 CloseTag == IF Classify(last.z, last.w) = "gap" /\ CloseTransitions(last.z) THEN "/close-transitions" ELSE ""
 Cls == CASE last.op = "fromLocal" -> Classify(last.z, last.w) \o "/" \o last.dis \o (IF Classify(last.z, last.w) = "gap" THEN (IF GapOf(last.z, last.w) > 3 * H THEN "/gap>3h" ELSE "/gap<=3h") ELSE "") \o CloseTag
          [] last.op = "wall" -> IF \E i \in 1..NT(last.z) : last.z.trans[i].at = last.t THEN "at-transition" ELSE "between"
+         [] last.op = "views" -> "views/" \o last.via \o "/" \o (IF \E i \in 1..NT(last.z) : last.z.trans[i].at = last.t THEN "at-transition" ELSE "between")
          [] last.op = "bag" -> "bag/" \o last.oc.k \o "/" \o last.oo \o "/" \o Classify(last.z, last.w) \o CloseTag
          [] last.op = "interpret" -> last.oc.k \o "/" \o last.oo \o "/" \o Classify(last.z, last.w) \o CloseTag
 CaseOf ==
   CASE last.op = "fromLocal" -> [op |-> "Zoned.fromLocal", cls |-> Cls, args |-> [zone |-> last.z, w |-> last.w, dis |-> last.dis], out |-> last.out]
     [] last.op = "wall" -> [op |-> "Zoned.wall", cls |-> Cls, args |-> [zone |-> last.z, t |-> last.t], out |-> last.out]
+    [] last.op = "views" -> [op |-> "Zoned.views", cls |-> Cls, args |-> [zone |-> last.z, t |-> last.t, via |-> last.via], out |-> last.out]
     [] last.op = "bag" -> [op |-> "Zoned.fromPartial", cls |-> Cls, args |-> [zone |-> last.z, w |-> last.w, offk |-> last.oc.k, offmin |-> last.oc.o \div 60, dis |-> last.dis, offopt |-> last.oo], out |-> last.out]
     [] last.op = "interpret" -> [op |-> "Zoned.fromStr", cls |-> Cls, args |-> [zone |-> last.z, w |-> last.w, offk |-> last.oc.k, off |-> last.oc.o, dis |-> last.dis, offopt |-> last.oo], out |-> last.out]
 Emit == last.op = "none" \/ PrintT("CASE " \o ToJson(CaseOf))
